@@ -67,7 +67,7 @@ func (w *World) typeSlots() ([]typeSlot, []string) {
 					continue
 				}
 				switch {
-				case e.Kind == "loophead" || e.Kind == "fieldstore" || e.Kind == "mapupdate" || e.Kind == "register":
+				case e.Kind == "loophead" || e.Kind == "fieldstore" || e.Kind == "mapupdate" || e.Kind == "register" || e.Kind == "typetest" || strings.HasPrefix(e.Kind, "encode:"):
 					continue
 				case strings.HasPrefix(e.Kind, "scalar:"):
 					tk := ""
